@@ -1033,8 +1033,11 @@ class SamplingMethod(DirectMethod):
                 found = True
                 opti.set_value(self.signals[p].coeff, value)
         assert found, "You attempted to set the value of a non-parameter."
-        if any(isinstance(e, MX) and is_equal(parameter, e) for e in [stage._T, stage._t0]):
-            # The horizon changed: guesses that the time grid derives from it change along
+        horizon = any(isinstance(e, MX) and is_equal(parameter, e) for e in [stage._T, stage._t0])
+        in_guess = any(isinstance(e, MX) and ca.depends_on(e, parameter) for e in stage._initial.values())
+        if horizon or in_guess:
+            # The horizon changed (guesses that the time grid derives from it change along),
+            # or a guess is written in terms of this parameter
             self.set_initial_with_grid(stage._augmented, opti, stage._initial)
 
     def add_parameter(self, stage, opti):
